@@ -285,11 +285,9 @@ __CPROVER_ensures(IMPLIES(__CPROVER_return_value.code == REG_ACCESS_SUCCESS && r
 __CPROVER_ensures(t->flags == __CPROVER_old(t->flags) && t->entries == __CPROVER_old(t->entries) \
     && t->entry == __CPROVER_old(t->entry))
 
-static RegisterAccess register_setx(RegisterTable *t, const RegisterHandle idx,
-                                    const RegisterValue v, const bool withvalidator)
-RT_SET_CONTRACT(t, idx, v, withvalidator)
-;
-
+/* register_setx (static) is the common body of both variants; it is proved
+ * inlined into each of them (no contract of its own: "assume the clause, then
+ * assert the same clause" costs a second evaluation of the whole spec). */
 RegisterAccess register_set(RegisterTable *t, const RegisterHandle idx, const RegisterValue v)
 RT_SET_CONTRACT(t, idx, v, true)
 ;
